@@ -36,7 +36,7 @@ NA = {
  "C15": "Metamorphic relation under affine reparametrisation of the input; pure function of inputs.",
  "C20": "Distances, arg-min and per-cluster moments are pure functions of (centroids, data); the per-block reduction and the hand-over into the GMM are exercised by C04's k-means-initialised GMM runs.",
 }
-PENDING = {}
+PENDING = {k: "Not claimed yet: simulation target per DESIGN.md §5, check under construction (will be claimed once its quick command is committed)." for k in ("C16", "C17", "C18", "C19") if k not in CLAIMED}
 
 def main():
     checks = []
